@@ -1,11 +1,13 @@
 """C10 - Cartesian vector arithmetic: component formulas and refusals of core/vectors/arithmetics.py (E4)."""
 from __future__ import annotations
 
+import ast
+
 import itertools
 
 from ..core import Run, AnalysisError
 from ..alg import T, num, var, op, normalize, same, C, Rat
-from ..pyreader import PyReader, VVal, Sys, Raised
+from ..pyreader import static_methods, PyReader, VVal, Sys, Raised
 
 EXPLANATION = (
     "core/vectors/arithmetics.py is evaluated abstractly (no execution of repository code): component values are generic "
@@ -60,15 +62,27 @@ def check(run: Run) -> None:
                  "vector_unit", "project_vector", "reject_cartesian_vector", "diff_cartesian_vector", "integrate_cartesian_vector", "equal_vectors"):
         run.require(any(getattr(s, "name", None) == name for s in mod.tree.body), f"{name} not found in arithmetics.py")
     R = PyReader(mod.tree, where="arithmetics.py")
+    csm = run.src.need("symplyphysics.core.coordinate_systems.coordinate_systems")
+    R.extern_static = static_methods(next(c_ for c_ in csm.tree.body if isinstance(c_, ast.ClassDef) and c_.name == "CoordinateSystem"))
+
+    mutated = set()
 
     def call(fn, *args):
         for a in args:
             if isinstance(a, Raised):
                 return a
+        before = [list(a.components) if isinstance(a, VVal) else None for a in args]
         try:
             return R.call(fn, list(args))
         except Raised as r:
             return r
+        finally:
+            # an operand is a value: the caller's vector must be what it was (Vector.components hands out the vector's own list)
+            for a, b in zip(args, before):
+                if b is not None and (len(a.components) != len(b) or any(x is not y and repr(x) != repr(y) for x, y in zip(a.components, b))) and fn not in mutated:
+                    mutated.add(fn)
+                    run.violate("V3", f"{MOD}:{fn}:mutates-operand", mod, mod.tree,
+                                f"{fn} changes the components of an operand in place ({b!r} -> {a.components!r}): every later use of that vector sees the changed components")
 
     s = var("s")
     node = mod.tree
